@@ -313,6 +313,11 @@ func c19Ops(fd *ast.FuncDecl) []string {
 							add("lencheck", c19Expr(b))
 							break
 						}
+						// variables that hold a length (keyLength != 32 …)
+						if id, ok := side.(*ast.Ident); ok && (strings.HasSuffix(id.Name, "Length") || strings.HasSuffix(id.Name, "Len")) {
+							add("lencheck", c19Expr(b))
+							break
+						}
 					}
 				}
 				return true
